@@ -4,6 +4,7 @@ import Pk.Lift
 import Pk.Predict
 import Pk.Score
 import Pk.Config
+import Pk.Tsvd
 /-! Line-protocol driver for the Mathlib-free model: one request per line on stdin, one reply per
 line on stdout.  The harness (`/verif/harness`) sends the same cases to the real pykoop and diffs. -/
 open Pk
@@ -226,6 +227,28 @@ def cmdCProg : P String := do
   pure (s!"ok {if r.cur then 1 else 0} {if r.raised then 1 else 0} " ++
     " ".intercalate (r.outs.map fun b => if b then "1" else "0"))
 
+/-- `tsvd <method> <param|n> <k> s1 .. sk` -/
+def cmdTsvd : P String := do
+  let mt ← tok
+  let m : Tsvd.Method := match mt with
+    | "economy" => .economy
+    | "unknown_noise" => .unknownNoise
+    | "known_noise" => .knownNoise
+    | "cutoff" => .cutoff
+    | "rank" => .rank
+    | _ => .invalid
+  let pt ← tok
+  let param ← if pt == "n" then pure none else (do
+    match pRat.run [pt] with
+    | .ok (r, _) => pure (some r)
+    | .error e => throw e)
+  let k ← pNat
+  let sig ← pMany k pRat
+  match Tsvd.fitRank m param sig with
+  | .rank r => pure s!"ok {r}"
+  | .valueError => pure "err ValueError"
+  | .opaque => pure "opaque"
+
 def intCells : Cells Int := ⟨0, Int.toNat, Int.ofNat⟩
 
 def pRaw : P (Raw Int) := do
@@ -281,6 +304,7 @@ def dispatch : P String := do
   | "regargs" => cmdRegArgs
   | "predict" => cmdPredict
   | "traj" => cmdTraj
+  | "tsvd" => cmdTsvd
   | "config" => cmdConfig
   | "cprog" => cmdCProg
   | "weights" => cmdWeights
